@@ -7,4 +7,7 @@ PoolA == << <<1, 2>>, <<-1, 3>>, <<-2, 3>>, <<-3, 4, -1>>, <<-3, -4, 2>>, <<2, -
 PoolB == << <<1, 2>>, <<-1, 2>>, <<1, -2, 3>>, <<-1, -2, 3>>, <<-3, -2>>, <<3, 4>>, <<-4, 1, 2, 2>> >>
 \* duplicates, a tautology, a unit
 PoolC == << <<1, 1, 2>>, <<3, -3>>, <<-2>>, <<-1, 3, 4>>, <<-3, -4, -1>>, <<4, 1>> >>
+\* check(): single literals of both signs, pairs whose second literal is decided by the first, a pair that conflicts
+ChecksA == << <<-1>>, <<4>>, <<1, 4>>, <<-4, -1>>, <<-2, -1>>, <<2>>, <<-3>>, <<4, -2>> >>
+NoChecks == << >>
 =============================================================================
